@@ -138,8 +138,8 @@ func lsFiles(g *gitx.Git, dir string) ([]string, error) {
 
 func run(c *vf.Ctx) {
 	g := gitx.New(c.Scratch)
-	nHist := c.N(7, 45)
-	perHist := c.N(12, 40)
+	nHist := c.N(6, 40)
+	perHist := c.N(12, 36)
 	var mu sync.Mutex
 	failCount := map[string]int{}
 	refusals := map[string]int{}
@@ -210,6 +210,11 @@ func run(c *vf.Ctx) {
 				}
 				sort.Strings(trackedList)
 				op := opSpec{Kind: opKinds[cr.Intn(len(opKinds))]}
+				if n := len(rec.Ops); n > 0 && cr.Intn(5) < 2 {
+					if k := rec.Ops[n-1].Kind; strings.HasPrefix(k, "add") || strings.HasPrefix(k, "remove") || k == "move" {
+						op.Kind = "commit" // something is probably staged now
+					}
+				}
 				// paths the pre-state touched (modified, deleted, untracked, type-changed ...) are the interesting arguments
 				var hot []string
 				for _, o := range rec.Pre {
@@ -491,7 +496,7 @@ func run(c *vf.Ctx) {
 	c.Extra("git_invocations", gitx.Calls.Load())
 	c.Extra("failures_by_key", failCount)
 	c.Extra("refusals", refusals)
-	c.Floor("operation steps compared", c.Counter("steps_compared"), c.N(120, 2500))
+	c.Floor("operation steps compared", c.Counter("steps_compared"), c.N(90, 2000))
 	c.Floor("operation kinds", c.SeenCount("op_kinds"), len(opKinds))
 	c.Floor("operation x argument kinds", c.SeenCount("arg_kinds"), c.N(20, 28))
 	c.Floor("commits whose tree was compared with git write-tree", c.Counter("commit_trees_confirmed_by_write_tree"), c.N(4, 100))
@@ -569,7 +574,7 @@ func diffIndex(op opSpec, ia, ib []string, before fsguard.Snapshot, rec caseRec,
 		case !inA && inB:
 			key := fmt.Sprintf("%s:index-entry-extra:pre=%s", op.Kind, feat(k))
 			p := k[:strings.LastIndexByte(k, '#')]
-			if _, onDisk := before[p]; op.Kind == "remove-dir" && !onDisk && strings.HasPrefix(p, op.Arg+"/") {
+			if e, onDisk := before[p]; op.Kind == "remove-dir" && (!onDisk || e.Mode.IsDir()) && strings.HasPrefix(p, op.Arg+"/") {
 				key = "remove-dir:index-entry-of-file-missing-on-disk-kept"
 			}
 			fails = append(fails, failure{key, fmt.Sprintf("go-git's index has %s (%s), git's lacks it", k, b)})
